@@ -9,6 +9,7 @@ for d in sorted(glob.glob(root + "/*/")):
     vlog = os.path.join(d, "verify.log")
     if not os.path.exists(vlog):
         continue
+    superseded = os.path.exists(os.path.join(d, "SUPERSEDED.txt"))
     am = {}
     try:
         am = json.load(open(os.path.join(d, "agent_meta.json")))
@@ -42,7 +43,8 @@ for d in sorted(glob.glob(root + "/*/")):
         "needs_to_manifest": am.get("needs", ""),
         "files_changed": am.get("files", []),
         "confirmed_in_scratch_worktree": ver,
-        "kept": bool(valid),
+        "kept": bool(valid) and not superseded,
+        "superseded_by_fix": open(os.path.join(d, "SUPERSEDED.txt")).read() if superseded else None,
         "what_was_run": "tools/tryseed.sh: in the sub-agent's scratch worktree of /repo: demo on clean HEAD, git apply patch.diff, "
                         "go build ./..., demo with patch, go test -json ./pkg/... ./cni/... compared with BASELINE.json stable_pass; "
                         "then ./check <prop> (quick tier, default seed) built against the patched worktree (VERIF_REPO), then git apply -R",
@@ -50,7 +52,8 @@ for d in sorted(glob.glob(root + "/*/")):
         "detected_by": detected,
     }
     json.dump(meta, open(os.path.join(d, "meta.json"), "w"), indent=1)
-    rows.append((name, prop, valid, detected, last))
+    if not superseded:
+        rows.append((name, prop, valid, detected, last))
 
 with open(root + "/RESULTS.md", "w") as f:
     f.write("# Seeded changes: which checks catch which\n\n")
